@@ -69,3 +69,11 @@ mod kani_harnesses {
 mod replay {
     include!(concat!(env!("STAM_VERIF_DIR"), "/replay/finder.rs"));
 }
+
+/// Regression replays: the demonstration of every repaired defect that has one (replay/fixed/*.rs, written against the
+/// public API), compiled into the crate next to the finders so that the thorough tier can run them per property
+/// (`verif_hooks::regress::c07_`).  A replay that fails means the repaired defect is back.
+#[cfg(all(test, stam_verif))]
+mod regress {
+    include!(concat!(env!("STAM_VERIF_DIR"), "/replay/fixed_mods.rs"));
+}
